@@ -456,3 +456,15 @@ CHECKS["C13"]["rule"] += (" (5) small-scope enumeration: for 9 tiny hash parser 
                           "hashes over 3-6 bytes) every pair (H1, H2) of strings over {0x00, 'a'} with |H1| <= 7, |H2| <= 9 "
                           "(8 / 10 in thorough; <= 5 / <= 6 for GSAP and OSAP): a parser that parsed H1 and was Reset emits "
                           "for H2 what a new parser emits (counted as evaluations, not hashed one by one).")
+
+CHECKS["C19"]["quick"]["tests"].append({"test": "TestC19Triple", "checks": 2000, "subchecks": 6})
+CHECKS["C19"]["thorough"]["tests"].append({"test": "TestC19Triple", "checks": 8000, "subchecks": 6})
+CHECKS["C19"]["rule"] += (" (d) texts holding one string three times (A, B, C between incompressible fillers; distances drawn "
+                          "around the window size so that A and B are inside or outside the window of C; C at the end of the "
+                          "data or of a block; tables large enough for B's entries to survive), written in one or two pieces "
+                          "and parsed to the end; the oracles of (a) and (b).")
+
+CHECKS["C02"]["quick"]["tests"].append({"test": "TestC02Triple", "checks": 1500, "subchecks": 6})
+CHECKS["C02"]["thorough"]["tests"].append({"test": "TestC02Triple", "checks": 6000, "subchecks": 6})
+CHECKS["C02"]["rule"] += (" Plus the triple-occurrence texts of C19 (d): one string three times with the first copy outside the "
+                          "window of the third and the second inside (or other combinations).")
